@@ -433,7 +433,8 @@ class Interp:
         try:
             return getattr(o, attr)
         except AttributeError as e:
-            if any(o is m for m in self.libs.values()) or (isinstance(o, type) and getattr(o, '__module__', '').startswith('ttsa.')):
+            if any(o is m for m in self.libs.values()) or (isinstance(o, type) and getattr(o, '__module__', '').startswith('ttsa.')) or \
+                    (getattr(type(o), '__module__', '').startswith('ttsa.') and type(o).__name__ in ('_Ufunc', 'LU') or type(o).__name__.startswith('Fake')):
                 raise AnalysisError(f'library attribute {getattr(o, "__name__", o)}.{attr} has no model in this domain ({self.where()})')
             raise Raised('AttributeError', str(e), node, self.cur_fn())
 
